@@ -234,3 +234,101 @@ def limbs(n, base=10000):
         n, r = divmod(n, base)
         out.append(r)
     return out
+
+
+# ---------------------------------------------------------------- sessions on one long-lived object
+
+class Session:
+    """one pycoin Tx object that lives through a sequence of queries and edits (TxSession.tla).
+    ins: [(src, idx)], truth: {src: [(amt, scr)]}, un0: [(amt, scr)], outs0: [(to, amt)]"""
+
+    def __init__(self, ins, truth, un0, outs0, style=0):
+        self.ins = [tuple(i) for i in ins]
+        self.truth = {s: [tuple(o) for o in outs] for s, outs in truth.items()}
+        self.src_tx = {s: source_tx(s, outs) for s, outs in self.truth.items()}
+        self.hash_of = {s: t.hash() for s, t in self.src_tx.items()}
+        self.style = style
+        spendables = [Spendable(a, SCR[sc], self.hash_of[s], k) for (s, k), (a, sc) in zip(self.ins, un0)]
+        self.tx = network.tx_utils.create_tx(spendables, [(ADDR[t], a) for t, a in outs0], fee=0)
+
+    # -- concretisation of arguments
+    def unspent_objs(self, lst, spendable):
+        out = []
+        for n, (a, sc) in enumerate(lst):
+            if spendable and n < len(self.ins):
+                s, k = self.ins[n]
+                out.append(Spendable(a, SCR[sc], self.hash_of[s], k))
+            else:
+                out.append(TxOut(a, SCR[sc]))
+        return out
+
+    def db(self, entries):
+        """entries: per source 1..n {"st", "id", "outs": [(amt, scr)]}"""
+        d = {}
+        for s, e in enumerate(entries, 1):
+            if e["st"] != "tx":
+                continue
+            content = [tuple(o) for o in e["outs"]]
+            if e["id"] == s:
+                if content != self.truth[s]:
+                    raise AssertionError("a database entry changes a transaction without changing its id")
+                d[self.hash_of[s]] = self.src_tx[s]
+            else:
+                d[self.hash_of[s]] = source_tx(s, content, salt=e["id"])
+        return d
+
+    # -- the actions; each returns ["val", n] | ["ok"] | ["raise", type]
+    def _call(self, f, *a):
+        try:
+            r = f(*a)
+        except Exception as e:
+            return ["raise", type(e).__name__]
+        return ["ok"] if r is None else ["val", r]
+
+    def total_in(self):
+        return self._call(self.tx.total_in)
+
+    def total_out(self):
+        return self._call(self.tx.total_out)
+
+    def fee(self):
+        return self._call(self.tx.fee)
+
+    def validate(self, entries):
+        return self._call(self.tx.validate_unspents, self.db(entries))
+
+    def set_unspents(self, lst):
+        return self._call(self.tx.set_unspents, self.unspent_objs(lst, self.style % 2 == 0))
+
+    def assign(self, lst):
+        self.tx.unspents = self.unspent_objs(lst, self.style % 2 == 1)
+        return ["ok"]
+
+    def from_db(self, entries):
+        return self._call(self.tx.unspents_from_db, self.db(entries))
+
+    def append_out(self, to, amt):
+        self.tx.txs_out.append(TxOut(amt, ADDR_SCRIPT[to]))
+        return ["ok"]
+
+    def replace_out(self, i, to, amt):
+        if self.style % 4 < 2:
+            self.tx.txs_out[i - 1] = TxOut(amt, ADDR_SCRIPT[to])
+        else:       # in place, as distribute_from_split_pool edits outputs
+            self.tx.txs_out[i - 1].coin_value = amt
+            self.tx.txs_out[i - 1].script = ADDR_SCRIPT[to]
+        return ["ok"]
+
+    # -- projection of the current fields (attribute reads only: asks the object nothing)
+    def fields(self):
+        un = [None if u is None else [u.coin_value, SCR_OF.get(u.script, 0)] for u in self.tx.unspents]
+        outs = [[TO_OF_SCRIPT.get(o.script, 0), o.coin_value] for o in self.tx.txs_out]
+        return un, outs
+
+    def fresh(self, un, outs):
+        """a new object with the given current fields and no history"""
+        f = Session.__new__(Session)
+        f.ins, f.truth, f.src_tx, f.hash_of, f.style = self.ins, self.truth, self.src_tx, self.hash_of, 0
+        f.tx = Tx(1, [TxIn(self.hash_of[s], k) for s, k in self.ins], [TxOut(a, ADDR_SCRIPT[t]) for t, a in outs])
+        f.tx.set_unspents([TxOut(a, SCR[sc]) for a, sc in un])
+        return f
